@@ -378,3 +378,193 @@ Section Recurse.
       + replace (p + off - off) with p by lia. exact Hr2.
   Qed.
 End Recurse.
+
+(* ---------- part_of ---------- *)
+
+Lemma part_of_total D t : forall pos coord id, 0 < D -> length pos = D -> coord < D ->
+  exists q, part_of D t pos coord id = Ok q.
+Proof.
+  induction t as [|p l IHl r IHr]; intros pos coord id HD Hlen Hc; cbn [part_of]; [eauto|].
+  destruct (nth_opt_lt pos coord ltac:(lia)) as (x & Hx). rewrite Hx.
+  assert (S coord mod D < D) by (apply Nat.mod_upper_bound; lia).
+  destruct (Nat.ltb x p); [apply IHl|apply IHr]; auto.
+Qed.
+
+(* ids are path codes: below (id+1) * 2^depth *)
+Lemma part_of_bound D f bal k c sub t : TreeOK D f bal k c sub t ->
+  forall pos coord id q, part_of D t pos coord id = Ok q -> (q < (id + 1) * 2 ^ N.of_nat k)%N.
+Proof.
+  induction 1 as [c sub|d c sub off Hn|d c sub off size p l r Hn Hsz Hp Hb Hl IHl Hr IHr];
+    intros pos coord id q Hq; cbn [part_of] in Hq.
+  - injection Hq as <-. cbn. lia.
+  - injection Hq as <-. assert (0 < 2 ^ N.of_nat d)%N by (apply N.neq_0_lt_0, N.pow_nonzero; lia). nia.
+  - rewrite Nat2N.inj_succ, N.pow_succ_r'.
+    destruct (nth_opt pos coord) as [x|]; [|discriminate].
+    destruct (Nat.ltb x p).
+    + apply IHl in Hq. nia.
+    + apply IHr in Hq. nia.
+Qed.
+
+(* ---------- position_of / index_of ---------- *)
+
+Lemma position_of_ok ds i : (length ds = 2 \/ length ds = 3) -> Forall (fun s => 1 <= s) ds ->
+  i < glen ds ->
+  exists pos, position_of ds i = Ok pos /\ in_box (into_subgrid ds) pos /\ index_of ds pos = Ok i
+              /\ length pos = length ds.
+Proof.
+  intros [HD|HD] Hs Hi.
+  - destruct ds as [|w [|h [|? ?]]]; try discriminate.
+    inversion Hs as [|? ? Hw Hs']; subst. inversion Hs' as [|? ? Hh _]; subst.
+    cbn [glen fold_right] in Hi. rewrite Nat.mul_1_r in Hi.
+    eexists. split; [reflexivity|].
+    assert (i mod w < w) by (apply Nat.mod_upper_bound; lia).
+    assert (i / w < h) by (apply Nat.div_lt_upper_bound; lia).
+    split; [|split; [|reflexivity]].
+    + unfold in_box, into_subgrid. cbn [map]. repeat constructor; cbn [fst snd]; lia.
+    + cbn [index_of]. f_equal. pose proof (Nat.div_mod i w ltac:(lia)). lia.
+  - destruct ds as [|w [|h [|d [|? ?]]]]; try discriminate.
+    inversion Hs as [|? ? Hw Hs']; subst. inversion Hs' as [|? ? Hh Hs'']; subst.
+    inversion Hs'' as [|? ? Hd _]; subst.
+    cbn [glen fold_right] in Hi. rewrite Nat.mul_1_r in Hi.
+    eexists. split; [reflexivity|].
+    assert (i mod w < w) by (apply Nat.mod_upper_bound; lia).
+    assert (i / w < h * d) by (apply Nat.div_lt_upper_bound; lia).
+    assert ((i / w) mod h < h) by (apply Nat.mod_upper_bound; lia).
+    assert (i / w / h < d) by (apply Nat.div_lt_upper_bound; lia).
+    split; [|split; [|reflexivity]].
+    + unfold in_box, into_subgrid. cbn [map]. repeat constructor; cbn [fst snd]; lia.
+    + cbn [index_of]. f_equal. pose proof (Nat.div_mod i w ltac:(lia)).
+      pose proof (Nat.div_mod (i / w) h ltac:(lia)). nia.
+Qed.
+
+(* ---------- the total weight is the weight of the whole grid ---------- *)
+
+Lemma sumZ_nth (l : list Z) : sumZ l = Sum (seq 0 (length l)) (fun i => nth i l 0%Z).
+Proof.
+  induction l as [|x t IH]; [reflexivity|].
+  cbn [length seq]. rewrite Sum_cons, sumZ_cons. cbn [nth]. f_equal.
+  rewrite IH, (Sum_shift 1). apply Sum_ext. intros a _. reflexivity.
+Qed.
+
+Lemma sum_rows (g : nat -> Z) w h :
+  Sum (seq 0 (w * h)) g = Sum (seq 0 h) (fun y => Sum (seq 0 w) (fun x => g (x + w * y))).
+Proof.
+  induction h as [|h IH].
+  - rewrite Nat.mul_0_r. reflexivity.
+  - rewrite Nat.mul_succ_r, seq_app, Sum_app, IH, seq_S, Sum_app, Sum_one. f_equal.
+    cbn [Nat.add]. rewrite Sum_shift. apply Sum_ext. intros x _. f_equal. lia.
+Qed.
+
+Lemma nth_opt_nth (l : list Z) i v : nth_opt l i = Some v -> nth i l 0%Z = v.
+Proof.
+  revert i; induction l as [|x t IH]; intros [|i] H; cbn [nth_opt nth] in *; try discriminate.
+  - injection H as ->. reflexivity.
+  - apply IH. exact H.
+Qed.
+
+Lemma total_is_box_sum ds ws : wf_grid ds ws ->
+  sumZ ws = box_sum (into_subgrid ds) (wfun ds ws).
+Proof.
+  intros ([HD|HD] & Hlen).
+  - destruct ds as [|w [|h [|? ?]]]; try discriminate.
+    rewrite sumZ_nth, Hlen. cbn [glen fold_right]. rewrite Nat.mul_1_r, sum_rows, Sum_swap.
+    unfold into_subgrid. cbn [map]. rewrite box_sum_cons. apply Sum_ext. intros x Hx.
+    rewrite box_sum_cons. apply Sum_ext. intros y Hy. cbn [box_sum].
+    apply in_seq_lt in Hx. apply in_seq_lt in Hy.
+    destruct (wat_ok2 w h ws x y Hlen) as (v & Hv & Hn); try lia.
+    unfold wfun. rewrite Hv. apply nth_opt_nth. exact Hn.
+  - destruct ds as [|w [|h [|d [|? ?]]]]; try discriminate.
+    rewrite sumZ_nth, Hlen. cbn [glen fold_right]. rewrite Nat.mul_1_r, sum_rows, Sum_swap.
+    unfold into_subgrid. cbn [map]. rewrite box_sum_cons. apply Sum_ext. intros x Hx.
+    rewrite (sum_rows (fun r => nth (x + w * r) ws 0%Z) h d), Sum_swap.
+    rewrite box_sum_cons. apply Sum_ext. intros y Hy.
+    rewrite box_sum_cons. apply Sum_ext. intros z Hz. cbn [box_sum].
+    apply in_seq_lt in Hx. apply in_seq_lt in Hy. apply in_seq_lt in Hz.
+    destruct (wat_ok3 w h d ws x y z Hlen) as (v & Hv & Hn); try lia.
+    unfold wfun. rewrite Hv. apply nth_opt_nth. exact Hn.
+Qed.
+
+(* ---------- Grid::rcb ---------- *)
+
+Definition start_of (c : cfg) (ds : list nat) : nat :=
+  if Nat.eqb (length ds) 2 then start_rec2 c else start_rec3 c.
+
+Definition cfg_ok (c : cfg) : Prop :=
+  2 <= min_chunks c /\ min_chunk_size c = 1
+  /\ start_rec2 c = start_po2 c /\ start_rec3 c = start_po3 c
+  /\ start_rec2 c < 2 /\ start_rec3 c < 3.
+
+Lemma nth_opt_seq n : forall off i, i < n -> nth_opt (seq off n) i = Some (off + i).
+Proof.
+  induction n as [|n IH]; intros off i Hi; [lia|].
+  cbn [seq]. destruct i as [|i]; cbn [nth_opt]; [f_equal; lia|].
+  rewrite IH by lia. f_equal. lia.
+Qed.
+
+Theorem grid_rcb_ok c fuel T fw ds ws k :
+  cfg_ok c -> wf_grid ds ws -> Forall (fun s => 1 <= s) ds ->
+  Forall (fun w => (0 <= w)%Z) ws ->
+  (forall t, (0 <= t <= sumZ ws)%Z -> thr_ok_b fw (tol_bits c) t = true) ->
+  Forall (fun s => s < 2 ^ fuel) ds ->
+  exists ids, grid_rcb c fuel T fw ds ws k (glen ds) = Ok ids
+              /\ C10_spec bal_strong (start_of c ds) ds ws k ids.
+Proof.
+  intros (Hcc & Hcs & He2 & He3 & Hs2 & Hs3) Hwf Hsides Hnn Hthr Hfuel.
+  pose proof Hwf as (HD & Hlen).
+  unfold grid_rcb.
+  assert (Hex : existsb (Nat.eqb 0) ds = false).
+  { apply not_true_is_false. intros E. apply existsb_exists in E as (s & Hin & Es).
+    apply Nat.eqb_eq in Es. subst s. rewrite Forall_forall in Hsides. apply Hsides in Hin. lia. }
+  rewrite Hex.
+  set (s := start_of c ds).
+  assert (Hst : (match length ds with
+                 | 2 => Some (start_rec2 c, start_po2 c)
+                 | 3 => Some (start_rec3 c, start_po3 c)
+                 | _ => None end) = Some (s, s) /\ s < length ds).
+  { unfold s, start_of. destruct HD as [HD|HD]; rewrite HD; cbn [Nat.eqb]; split; try lia.
+    - rewrite <- He2. reflexivity.
+    - rewrite <- He3. reflexivity. }
+  destruct Hst as (Hst & Hslt). rewrite Hst.
+  destruct (recurse_ok c fuel T fw ds ws (sumZ ws) Hwf Hnn Hcc Hcs Hthr Hfuel k
+              (into_subgrid ds) (sumZ ws) s (sub_ok_full ds) Hslt
+              (total_is_box_sum ds ws Hwf) ltac:(lia)) as (t & Ht & Htree).
+  rewrite Ht. cbn [bind].
+  assert (HD0 : 0 < length ds) by lia.
+  (* every cell gets an id *)
+  assert (Hcell : forall i, i < glen ds -> exists pos q,
+             position_of ds i = Ok pos /\ in_box (into_subgrid ds) pos /\ index_of ds pos = Ok i
+             /\ part_of (length ds) t pos s 0%N = Ok q).
+  { intros i Hi. destruct (position_of_ok ds i HD Hsides Hi) as (pos & Hp & Hb & Hix & Hpl).
+    destruct (part_of_total (length ds) t pos s 0%N HD0 Hpl Hslt) as (q & Hq).
+    exists pos, q. auto. }
+  destruct (map_res (fun i => bind (position_of ds i) (fun pos => part_of (length ds) t pos s 0%N))
+                    (seq 0 (glen ds))) as [ids| | |] eqn:Emap.
+  2-4: exfalso.
+  2-4: assert (Hall : forall i, In i (seq 0 (glen ds)) ->
+          exists q, bind (position_of ds i) (fun pos => part_of (length ds) t pos s 0%N) = Ok q)
+    by (intros i Hi; apply in_seq_lt in Hi; destruct (Hcell i ltac:(lia)) as (pos & q & Hp & _ & _ & Hq);
+        exists q; rewrite Hp; exact Hq).
+  2-4: clear - Emap Hall; revert Emap Hall; generalize (seq 0 (glen ds)); intros l;
+    induction l as [|a l' IH]; intros Emap Hall; cbn [map_res] in Emap; [discriminate|];
+    destruct (Hall a ltac:(now left)) as (q & Hq); rewrite Hq in Emap; cbn [bind] in Emap;
+    destruct (map_res _ l') eqn:E'; cbn [bind] in Emap; try discriminate;
+    apply IH; auto; intros i Hi; apply Hall; now right.
+  exists ids. split; [reflexivity|].
+  destruct (map_res_inv _ _ _ Emap) as (Hl & Hnth). rewrite seq_length in Hl.
+  unfold C10_spec. split; [exact Hl|]. split.
+  - (* ids below 2^k *)
+    apply Forall_forall. intros q Hin.
+    apply In_nth_error in Hin as (i & Hi).
+    assert (Hil : i < glen ds) by (rewrite <- Hl; apply nth_error_Some; congruence).
+    destruct (Hnth i i) as (q' & Hq' & Hn'); [rewrite nth_opt_seq; auto|].
+    destruct (Hcell i Hil) as (pos & q'' & Hp & _ & _ & Hq''). rewrite Hp in Hq'. cbn [bind] in Hq'.
+    assert (q' = q).
+    { clear - Hn' Hi. revert i Hn' Hi. induction ids as [|y t' IH]; intros [|i] H1 H2;
+        cbn [nth_opt nth_error] in *; try discriminate; [congruence|eauto]. }
+    subst q'. apply (part_of_bound _ _ _ _ _ _ _ Htree) in Hq'. lia.
+  - exists t. split; [exact Htree|].
+    intros i Hi. destruct (Hcell i Hi) as (pos & q & Hp & Hb & Hix & Hq).
+    exists pos, q. repeat split; auto.
+    destruct (Hnth i i) as (q' & Hq' & Hn'); [rewrite nth_opt_seq; auto|].
+    rewrite Hp in Hq'. cbn [bind] in Hq'. congruence.
+Qed.
